@@ -159,5 +159,8 @@ func C12(p *core.Program, r *core.Report) {
 			}
 		}
 	}
+	// G5: "every call returns exactly the result it returns when run alone": under load a call is
+	// slower, so nothing but timing data may depend on the clock (shared with C11-D2)
+	checkNondeterminismSources(p, r, "G5")
 	r.Add("G4", "module packages import neither unsafe, reflect nor cgo", "", nPk >= 24, fmt.Sprintf("%d packages", nPk))
 }
